@@ -149,3 +149,61 @@ def group_max_width(src, k: int):
     if g is None:
         return None
     return g.getwidth()[1]
+
+
+def total_on_lf_strings(src, flags: int = 0):
+    """True when `re.match(src, s)` succeeds for EVERY byte string s that
+    contains a line feed; False when some such s is rejected; None when the
+    pattern is not of the one shape this decides:
+
+        ^?  ( S*  |  S*? )   (\r?)?   \n
+
+    with S a single character item.  Let k be the first LF of s: s[:k] has
+    no LF, so it is matched by S* exactly when S contains every byte except
+    LF; then `\r?` matches the empty string and `\n` matches s[k] (a greedy
+    S* that also contains LF backtracks to the last LF instead)."""
+    import re._parser as sp
+    import re._constants as sc
+    try:
+        items = list(sp.parse(src, flags))
+    except Exception:
+        return None
+    dotall = bool(flags & 16) or bool(sp.parse(src, flags).state.flags & 16)
+    if items and items[0][0] is sc.AT and items[0][1] in (
+            sc.AT_BEGINNING, sc.AT_BEGINNING_STRING):
+        items = items[1:]
+    if not items or items[-1] != (sc.LITERAL, 10):
+        return None
+    items = items[:-1]
+    if items and items[-1][0] in (sc.MAX_REPEAT, sc.MIN_REPEAT):
+        lo, hi, sub = items[-1][1]
+        sub = list(sub)
+        if (lo, hi) == (0, 1) and sub == [(sc.LITERAL, 13)]:
+            items = items[:-1]
+    if len(items) != 1:
+        return None
+    op, av = items[0]
+    if op is sc.SUBPATTERN:
+        inner = list(av[3])
+        if len(inner) != 1:
+            return None
+        op, av = inner[0]
+    if op not in (sc.MAX_REPEAT, sc.MIN_REPEAT):
+        return None
+    lo, hi, sub = av
+    sub = list(sub)
+    if lo != 0 or hi is not sc.MAXREPEAT or len(sub) != 1:
+        return None
+    cop, cav = sub[0]
+    if cop is sc.ANY:
+        chars = frozenset(range(256)) if dotall else \
+            frozenset(range(256)) - {10}
+    elif cop is sc.IN:
+        chars = class_set(cav)
+    elif cop is sc.NOT_LITERAL:
+        chars = frozenset(range(256)) - {cav}
+    elif cop is sc.LITERAL:
+        chars = frozenset({cav})
+    else:
+        return None
+    return chars >= frozenset(range(256)) - {10}
